@@ -16,8 +16,12 @@ def strip_sep(s):
 
 def evaluate(kp, g, doc, bad, text, o, label, clause='export'):
     """-> engine record for one option set"""
+    n0 = len(docs.SESSION_MISMATCHES)
     out = docs.impl_dumps(kp, doc, **o)
     viol = []
+    while len(docs.SESSION_MISMATCHES) > n0:
+        sig, wit = docs.SESSION_MISMATCHES.pop()
+        viol.append((clause, sig, dict(wit, text=text)))
     enc = o.get('encoding') or 'kern'
     if out.startswith('ok:'):
         selected = spec.closure(kp, o.get('include'), o.get('exclude'))
